@@ -65,7 +65,7 @@ CutViol(c, J) ==
     (IF TaskOutcomes(c, p) THEN {} ELSE {"C10_TaskOutcomes"}) \cup
     (IF Counters(c) THEN {} ELSE {"C10_Counters"}) \cup
     (IF PendingOnce(c, p) THEN {} ELSE {"C10_PendingOnce"}) \cup
-    (IF DepsIntact(c, p) THEN {} ELSE {"C10_DepsIntact"}) \cup
+    (IF DepsIntact(c, p) THEN {} ELSE {"C10_DepsIntact", "C03_DepsSurviveRestart"}) \cup
     (IF InstAfterRestart(c, p) THEN {} ELSE {"C06_InstAfterRestart"}) \cup
     (IF CrashSurvives(c, p) THEN {} ELSE {"C07_CrashSurvivesRestart"}) \cup
     (IF QueuesRestored(c, p) THEN {} ELSE {"C12_QueuesRestored"}) \cup
